@@ -381,7 +381,7 @@ int main(int argc, char** argv)
         int sa = 0, sb = 0;
         waitpid(pa, &sa, 0);
         waitpid(pb, &sb, 0);
-        if (!(WIFEXITED(sa) && WEXITSTATUS(sa) == 0) || !(WIFEXITED(sb) && WEXITSTATUS(sb) == 0)) { printf("HARNESS-ERROR twin process failed (family %d, status %d / %d)\n", fam, sa, sb); return 2; }
+        if (!(WIFEXITED(sa) && WEXITSTATUS(sa) == 0) || !(WIFEXITED(sb) && WEXITSTATUS(sb) == 0)) { printf("HARNESS-ERROR twin process failed (family %d, status %d / %d)\n", fam, sa, sb); std::error_code ec; std::filesystem::remove_all(dir, ec); return 2; }
         auto load = [&](const std::string& file) {
             std::map<std::string, std::vector<std::string>> m;
             std::ifstream f(file);
